@@ -689,5 +689,134 @@ def rule_P2(ctx):
         ctx.inconclusive("ex_command", "undo group closed on the current buffer", "lbuf_modified(ex_lbuf()) not found")
 
 
+# ----------------------------------------------------------------------------------------
+# G7: the numbered registers are shifted as a chain that ends at the register overwritten next
+
+
+def rule_G7(ctx):
+    """reg_put of line-wise text into the unnamed or a letter register: afterwards "1 holds the
+    new text and "k+1 holds what "k held, for k = 1..8.  reg_put is evaluated abstractly with
+    the two register primitives replaced by a nine-slot model, so the loop may be spelled any
+    way (for / while / helper)."""
+    ctx.begin("G7", floor=1, what="numbered-register shift")
+    prog = ctx.prog
+    f = prog.func("reg_put", file="reg.c")
+    n_eval = 0
+    for c in (0, ord("a")):
+        regs = {ord("1") + k: ("old", k + 1) for k in range(9)}
+        log = []
+
+        def h_get(ip, fn, e, args, env, regs=regs):
+            v = regs.get(args[0])
+            return Ptr((1, 0)) if v is None else _Tok(v)
+
+        def h_put(ip, fn, e, args, env, regs=regs, log=log):
+            src = args[1]
+            regs[args[0]] = src.tag if isinstance(src, _Tok) else ("new",)
+            log.append(args[0])
+            return None
+        text = Ptr((0x78, 0x0a, 0))
+        try:
+            Interp(prog, hooks={"reg_get": h_get, "reg_putraw": h_put}).call(f, [c, text, 1])
+        except (Unsupported, OverRead) as e:
+            raise AnalysisBroken("reg_put not evaluable: %s" % e)
+        n_eval += 1
+        bad = None
+        if regs.get(ord("1")) != ("new",):
+            bad = 'register "1 does not receive the new text'
+        for k in range(1, 9):
+            if bad is None and regs.get(ord("1") + k) != ("old", k):
+                got = regs.get(ord("1") + k)
+                bad = 'register "%d ends up with %s instead of the old contents of "%d' % (
+                    k + 1, "the new text" if got == ("new",) else ("the old \"%d" % got[1] if got else "nothing"), k)
+        if bad:
+            ctx.violation("reg_put", "numbered registers shift as a chain",
+                          "after a line-wise put into register %s: %s (the shift does not cover \"1..\"8 in "
+                          "descending order)" % (repr(chr(c)) if c else "unnamed", bad), f.loc(f.body))
+        else:
+            ctx.ok("reg_put", 'line-wise put into %s: "1 = new text, "k+1 = old "k for k = 1..8 (abstract '
+                   "evaluation over a nine-slot register model)" % (repr(chr(c)) if c else "the unnamed register"))
+    if not n_eval:
+        raise AnalysisBroken("reg_put: nothing evaluated")
+
+
+class _Tok(Ptr):
+    """a register's text: a non-null string tagged with where it came from"""
+    def __init__(self, tag):
+        Ptr.__init__(self, (0x79, 0x0a, 0))
+        self.tag = tag
+
+
+# ----------------------------------------------------------------------------------------
+# M4: the line offset of a search belongs to its keyword
+
+
+def rule_M4(ctx):
+    ctx.begin("M4", floor=2, what="keyword changes in vi.c and the remembered line offset")
+    prog = ctx.prog
+    # the offset state: file-static ints of vi.c read in vi_search after a successful search
+    vs = prog.func("vi_search", file="vi.c")
+    cand = {}
+    for n in vs.walk():
+        if n["k"] == "ref" and n.get("cat") in ("global", "sglobal", "static") and n["name"].startswith("vi_so"):
+            cand[n["name"]] = True
+    flag = "vi_soset" if "vi_soset" in cand else None
+    if flag is None:
+        raise AnalysisBroken("vi_search: the search-offset flag was not found")
+
+    def reads_flag(g, seen=None):
+        seen = seen or set()
+        if g.qname in seen:
+            return False
+        seen.add(g.qname)
+        st_ids = set()
+        for n, lv, op, rhs in stores(g.body):
+            if lv["k"] == "ref" and lv["name"] == flag and op in ("=", "init"):
+                st_ids.add(lv["id"])
+        for n in g.walk():
+            if n["k"] == "ref" and n["name"] == flag and n["id"] not in st_ids:
+                return True
+        return False
+    n_sites = 0
+    for f in prog.funcs.values():
+        if f.file != "vi.c":
+            continue
+        for K in f.calls("ex_kwdset"):
+            from ..callgraph import is_null
+            if is_null(K["args"][0]):
+                continue
+            n_sites += 1
+            pk = f.cfg.pos(K)
+            if pk is None:
+                continue
+            store_ids = {n["id"] for n, lv, op, rhs in stores(f.body) if lv["k"] == "ref" and lv["name"] == flag}
+            lv_ids = {lv["id"] for n, lv, op, rhs in stores(f.body) if lv["k"] == "ref" and lv["name"] == flag}
+
+            def is_reader(e, f=f, K=K):
+                n = f.nodes.get(e)
+                if n is None or e == K["id"]:
+                    return False
+                if n["k"] == "ref" and n["name"] == flag and n["id"] not in lv_ids:
+                    return True
+                if n["k"] == "call" and n.get("fn"):
+                    g = prog.resolve(f, n["fn"])
+                    if g is not None and g.file == "vi.c" and reads_flag(g):
+                        return True
+                return False
+            hit = f.cfg.search(pk, is_reader, avoid=lambda e: e in store_ids)
+            if hit is not None:
+                hn = f.nodes.get(hit[-1] if isinstance(hit, (list, tuple)) else hit)
+                ctx.violation(f.name, "a new keyword resets the search line offset",
+                              "after ex_kwdset installs a keyword here, %s is read%s before it is assigned: "
+                              "the line offset typed with an earlier /pat/N search is applied to the new keyword" % (
+                                  flag, " (in %s)" % hn["fn"] if isinstance(hn, dict) and hn.get("k") == "call" else ""),
+                              f.loc(K))
+            else:
+                ctx.ok(f.name, "%s is assigned after the keyword is installed and before it is read" % flag,
+                       loc=f.loc(K))
+    if n_sites < 2:
+        raise AnalysisBroken("only %d keyword installations in vi.c" % n_sites)
+
+
 RULES = {"B12": rule_B12, "B13": rule_B13, "W9": rule_W9, "X6": rule_X6, "T5": rule_T5, "S5": rule_S5,
-         "G5": rule_G5, "G6": rule_G6, "P2": rule_P2}
+         "G5": rule_G5, "G6": rule_G6, "P2": rule_P2, "G7": rule_G7, "M4": rule_M4}
